@@ -20,7 +20,8 @@ RULE = ("cases = (feature subset, option values, mixed text containing $6$ secre
         "output: (a) repeated with fresh objects in one process, (b) in child interpreters started with different "
         "PYTHONHASHSEED (library driver and CLI), (c) after a history of 1..6 unrelated anonymizers (other salts, other "
         "reserved words, other options) was constructed and used first - in process and in child interpreters, (d) with "
-        "no salt: the salt read from the WARNING record reproduces the output. The module-level reserved-word set is "
+        "no salt: the salt read from the WARNING record reproduces the output, (e) writing onto an output path (file or "
+        "directory, library and CLI) that already holds longer content from an earlier run vs a fresh path. The module-level reserved-word set is "
         "compared before/after every construction (evidence). distinct_nontrivial = distinct (case, comparison kind) "
         "pairs whose output differs from the input text.")
 ASSUMPTIONS = ["the global `random` module is never seeded by the harness",
@@ -319,8 +320,10 @@ def _cli_dir(ctx, case, nc):
         opts["salt"] = "s0"
     outs = []
     with tempfile.TemporaryDirectory(dir=os.path.join(load.VERIF, ".work")) as d:
-        os.makedirs(os.path.join(d, "in", "sub"))
-        names = ["a.cfg", "b.cfg", "c.cfg", "d.cfg", ".hidden.swp", "sub/e.cfg", "sub/f.cfg", "sub/.DS_Store", "sub/g.cfg"]
+        for sd in ("sub", "alpha", "beta", "Zeta", "sub/deeper", "x1"):
+            os.makedirs(os.path.join(d, "in", sd))
+        names = ["a.cfg", "b.cfg", "c.cfg", "d.cfg", ".hidden.swp", "sub/e.cfg", "sub/f.cfg", "sub/.DS_Store", "sub/g.cfg",
+                 "alpha/h.cfg", "beta/i.cfg", "Zeta/j.cfg", "sub/deeper/k.cfg", "x1/l.cfg"]
         for n in names:
             text = M.render_text(M.gen_text(rng, opts, rng.randint(3, 10))) + "username u%s password Pw%dx%s\n" % (n[0], rng.getrandbits(30), n[0])
             with open(os.path.join(d, "in", n), "w", encoding="utf-8", newline="") as f:
